@@ -25,11 +25,11 @@ type ErrSite struct {
 // make the failure observable: they never return normally or they store it.
 var errRecorders = map[string]bool{
 	"(*" + pkgArmor + ".armoredReader).setErr": true,
-	pkgCmdAge + ".errorf":                       true,
-	pkgCmdAge + ".errorWithHint":                true,
-	pkgKeygen + ".errorf":                       true,
-	"log.Fatalf":                                true,
-	"log.Fatal":                                 true,
+	pkgCmdAge + ".errorf":                      true,
+	pkgCmdAge + ".errorWithHint":               true,
+	pkgKeygen + ".errorf":                      true,
+	"log.Fatalf":                               true,
+	"log.Fatal":                                true,
 }
 
 // errSitesIn classifies every call in fn that yields an error.
